@@ -74,6 +74,11 @@ static std::string op(const Toks& t) {
       std::string s = TextTools::toString(n);
       return strToHex(s) + " " + std::to_string(TextTools::toInt(s));
     }
+    if (o == "dbl.rt") {         // dbl.rt <hexdouble> <precision>: toString(d, precision) -> toDouble
+      double d = hexToDouble(t[1]); int prec = static_cast<int>(toI(t[2]));
+      std::string s = TextTools::toString(d, prec);
+      return doubleToHex(TextTools::toDouble(s)) + " " + strToHex(s);
+    }
     if (o == "glob") {           // glob <pattern> <name>  -> the three copies of the matcher
       std::string p = hexToStr(t[1]), n = hexToStr(t[2]);
       ParameterList pl; pl.addParameter(Parameter(n, 0.));
